@@ -4,7 +4,9 @@ import copy
 import random
 
 from . import aegen, simfarm, world
-from .result import Result, h64, keep_going
+from .result import CaseTimeout, Result, deadline, h64, keep_going
+
+BUILD_DEADLINE = 20.0
 
 _WORLD = []
 
@@ -50,7 +52,13 @@ def gen_case(rng, opts):
 def run_history(case, events, monitors, rng=None, profile=None, n_events=0, drain=None):
     '''replay `events` then (if rng) generate n_events more; returns the Sim'''
     w = get_world()
-    sim = simfarm.Sim(w, case['spec'], case['targets'], case['prerecord'], monitors)
+    # graph construction enumerates paths: dense engines of ~25+ algorithms take minutes to hours to
+    # build (observation, see DESIGN 7.3); such an engine is skipped, not waited for
+    try:
+        with deadline(BUILD_DEADLINE):
+            sim = simfarm.Sim(w, case['spec'], case['targets'], case['prerecord'], monitors)
+    except CaseTimeout:
+        return None
     try:
         for ev in events:
             sim.apply(copy.deepcopy(ev))
@@ -108,6 +116,10 @@ def shard_loop(spec, pid, make_monitors, classify, opts):
         if callable(drain):
             drain = drain(rng, case)
         sim = run_history(case, [], monitors, rng, profile, nev, drain)
+        if sim is None:
+            res.count('engines_skipped_build_exceeded_deadline')
+            w.reset_pipeline_state()
+            continue
         n += 1
         res.count('evaluations')
         res.count('events', len(sim.events))
